@@ -525,7 +525,7 @@ func structural(t *rapid.T) Case {
 	var sb strings.Builder
 	c := Case{Entry: "main.thrift", Files: map[string]string{}, Src: "structural"}
 	name := func(prefix string, i int) string { return fmt.Sprintf("%s%d", prefix, i%n) }
-	kind := rapid.SampledFrom([]string{"typedef-lasso", "self-default-literal", "docstring-shapes", "typedef-cycle", "const-cycle", "const-struct-default-cycle", "struct-default-self", "struct-default-chain", "service-cycle", "include-loop", "self-include", "dangling-type", "dangling-const", "dangling-service", "typedef-through-container-cycle", "required-struct-cycle", "union-self", "exception-throws-cycle", "const-enum-ref-missing", "deep-typedef-chain", "const-of-recursive-struct"}).Draw(t, "kind")
+	kind := rapid.SampledFrom([]string{"typedef-lasso", "self-default-literal", "docstring-shapes", "typedef-cycle", "const-cycle", "const-struct-default-cycle", "struct-default-self", "struct-default-chain", "service-cycle", "include-loop", "self-include", "dangling-type", "dangling-const", "dangling-service", "typedef-through-container-cycle", "required-struct-cycle", "union-self", "exception-throws-cycle", "const-enum-ref-missing", "deep-typedef-chain", "const-of-recursive-struct", "multi-file-program"}).Draw(t, "kind")
 	c.Shape = fmt.Sprintf("%s-%d", kind, n)
 	switch kind {
 	case "typedef-lasso":
@@ -597,9 +597,22 @@ func structural(t *rapid.T) Case {
 		}
 		sb.WriteString("struct User { 1: optional T0 t }\n")
 	case "typedef-through-container-cycle":
+		// every link of the cycle runs through a container position of its own: element, set
+		// member, map value, map key, or nested
 		for i := 0; i < n; i++ {
-			fmt.Fprintf(&sb, "typedef list<%s> %s\n", name("T", i+1), name("T", i))
+			forms := []string{"list<%s>", "set<%s>", "map<string, %s>", "map<%s, string>", "list<map<%s, i32>>", "map<i32, list<%s>>"}
+			form := rapid.SampledFrom(forms).Draw(t, fmt.Sprintf("cform%d", i))
+			fmt.Fprintf(&sb, "typedef "+form+" %s\n", name("T", i+1), name("T", i))
 		}
+	case "multi-file-program":
+		// a well-formed program of several files in which every file defines one shared type name
+		// and names all visible ones inside containers (the generator has to tell them apart)
+		p := im.GenProgram(t, &im.GenOpts{Services: true, Defaults: true, Consts: true, Recursive: true, Small: true, MaxFiles: 4, ForceCluster: true})
+		for _, f := range p.Files {
+			c.Files[f.Path] = p.RenderFile(f)
+		}
+		c.Entry = p.Files[0].Path
+		c.Shape = fmt.Sprintf("%s-%d", kind, len(p.Files))
 	case "const-cycle":
 		for i := 0; i < n; i++ {
 			fmt.Fprintf(&sb, "const i32 %s = %s\n", name("K", i), name("K", i+1))
@@ -735,11 +748,13 @@ func TestStructuralGrid(t *testing.T) {
 		}
 		seen[c.Shape] = true
 		batch = append(batch, c)
-		if strings.HasPrefix(c.Shape, "self-default-literal") || strings.HasPrefix(c.Shape, "docstring-shapes") || strings.HasPrefix(c.Shape, "typedef-lasso") {
-			// these shapes have random content: keep up to 40 variants of each
-			variants[c.Shape]++
-			if variants[c.Shape] < 40 {
-				delete(seen, c.Shape)
+		// shapes with random content: keep several variants of each
+		for prefix, want := range map[string]int{"self-default-literal": 40, "docstring-shapes": 40, "typedef-lasso": 40, "typedef-through-container-cycle": 40, "multi-file-program": 12} {
+			if strings.HasPrefix(c.Shape, prefix) {
+				variants[c.Shape]++
+				if variants[c.Shape] < want {
+					delete(seen, c.Shape)
+				}
 			}
 		}
 	}
